@@ -9,12 +9,20 @@ from scipy.spatial.transform import Rotation as R
 from oracles.c09 import window, clamp
 
 
-def build(rng, nps, n):
+def build(rng, nps, n, far=False):
+    """`far`: a millimetre-sized assembly a long way from the origin — all members within 1e-3..1e-2 of one point whose
+    coordinates are 1e2..1e5 (member offsets are small compared with the coordinates, not with the assembly)"""
     import magpylib as magpy
+
+    centre = nps.uniform(-1, 1, 3) * 10.0 ** nps.uniform(2, 5) if far else np.zeros(3)
+    spread = 10.0 ** nps.uniform(-3, -2) / 2 if far else 1.0
+
+    def pos():
+        return centre + spread * nps.uniform(-2, 2, (n, 3))
 
     def leaf():
         k = rng.random()
-        kw = dict(position=nps.uniform(-2, 2, (n, 3)), orientation=R.random(n, rng=nps))
+        kw = dict(position=pos(), orientation=R.random(n, rng=nps))
         if k < 0.4:
             return magpy.Sensor(**kw)
         if k < 0.7:
@@ -25,7 +33,7 @@ def build(rng, nps, n):
         kids = []
         for _ in range(rng.choice([1, 2, 3])):
             kids.append(coll(depth - 1) if depth > 0 and rng.random() < 0.4 else leaf())
-        return magpy.Collection(*kids, position=nps.uniform(-2, 2, (n, 3)), orientation=R.random(n, rng=nps))
+        return magpy.Collection(*kids, position=pos(), orientation=R.random(n, rng=nps))
 
     return coll(2)
 
@@ -54,7 +62,10 @@ def sweep(ctx, n_trees, n_ops):
     for _ in range(n_trees):
         nps = np.random.default_rng(rng.randrange(2**31))
         n = rng.choice([1, 2, 3, 4])
-        root = build(rng, nps, n)
+        far = rng.random() < 0.3
+        root = build(rng, nps, n, far=far)
+        if far:
+            kinds["far-assembly"] = kinds.get("far-assembly", 0) + 1
         hist = []
         for _ in range(n_ops):
             nodes = all_nodes(root)
